@@ -25,7 +25,7 @@ RInit == Init /\\ log = <<>>
 RNext == \\/ \\E f \\in Formulas : Parse(1, f) /\\ log' = Append(log, [a |-> "parse", phi |-> f])
          \\/ PastifyA(1) /\\ log' = Append(log, [a |-> "pastify"])
          \\/ Repastify(1) /\\ log' = Append(log, [a |-> "pastify"])
-         \\/ \\E s \\in [ms[1].cfg.vars -> Vals], g \\in Gaps :
+         \\/ \\E s \\in Samples(ms[1].cfg.vars), g \\in Gaps :
                Update(1, s, g) /\\ log' = Append(log, [a |-> "update", s |-> s, t |-> NextStamp(ms[1], g)])
          \\/ Reset(1) /\\ log' = Append(log, [a |-> "reset"])
          \\/ \\E s \\in [ms[1].cfg.vars -> Vals], g \\in Gaps :
@@ -106,7 +106,8 @@ def to_cases(behs, vars_, factories=("StlDiscreteTimeSpecification", "StlDiscret
                 ts.append(e["t"])
                 evs.append({"o": 1, "a": "evaluate", "ts": list(ts), "w": {v: list(w[v]) for v in vars_}})
             else:
-                evs.append({"o": 1, "a": "update", "t": e["t"], "s": e["s"]})
+                # (TLC prints the empty assignment - an update() that names no variable - as an empty list)
+                evs.append({"o": 1, "a": "update", "t": e["t"], "s": e["s"] if isinstance(e["s"], dict) else {}})
         if any(e["a"] == "extend" for e in b):
             obj["factory"] = ("StlDiscreteTimeSpecification", "StlDiscreteTimeOfflineSpecification")[i % 2]
         cases.append({"objs": [obj], "events": evs, "rels": [], "skip": [], "from": "tlc-simulation"})
